@@ -178,15 +178,23 @@ lemma('jeqk_implies_sub_ok',
       [Part(ks, [ls], Implies(And(J.ksorted(ks), J.ksorted(ls), J.jeq_k(ks, ls)),
                               J.sub_ok(ks, ls)))],
       props=P18, uses=['jeqk_sub_ok_weaken', 'STR_ORDER'])
-PIGEONHOLE = z3.ForAll([ks, ls], Implies(And(J.ksorted(ks), J.ksorted(ls),
-                                             J.klen(ks) == J.klen(ls), J.sub_ok(ks, ls)),
-                                         J.jeq_k(ks, ls)))
-
-ASSUMED = {
-    'PIGEONHOLE': (PIGEONHOLE, 'finite pigeonhole on strictly sorted association lists: same length '
-                   'and every key of the first present in the second (with JSON-equal values) '
-                   'implies pointwise equality; used only for the dict branch of is_equal'),
-}
+# the finite pigeonhole principle on strictly sorted association lists, by three inductions
+# S1: keys all greater than s are looked up past an entry with key s
+lemma('sub_ok_skip_smaller_head',
+      [Part(ks, [ls, s, a], Implies(And(J.all_gt(s, ks), J.sub_ok(ks, KVs.kcons(PyV.PStr(s), a, ls))),
+                                    J.sub_ok(ks, ls)))],
+      props=P18, uses=['STR_ORDER'])
+# PH': a sorted list all of whose keys occur in another sorted list is not longer
+lemma('sub_ok_len_le',
+      [Part(ls, [ks], Implies(And(J.ksorted(ks), J.ksorted(ls), J.sub_ok(ks, ls)),
+                              J.klen(ks) <= J.klen(ls)))],
+      props=P18, uses=['STR_ORDER', 'sub_ok_skip_smaller_head', 'all_gt_trans', 'all_gt_mem',
+                       'klen_nonneg'])
+lemma('pigeonhole',
+      [Part(ks, [ls], Implies(And(J.ksorted(ks), J.ksorted(ls), J.klen(ks) == J.klen(ls),
+                                  J.sub_ok(ks, ls)), J.jeq_k(ks, ls)))],
+      props=P18, uses=['STR_ORDER', 'sub_ok_skip_smaller_head', 'sub_ok_len_le', 'all_gt_trans',
+                       'all_gt_mem', 'klen_nonneg'])
 
 CONTRACTS = []
 
@@ -207,7 +215,7 @@ CONTRACTS.append(Contract(
              == J.sub_ok(c.loop['rest'], PyV.kvs(c.value2))),
             ('dom', J.eqdom_k(c.loop['rest']))]),
     },
-    lemmas=['plen_nonneg', 'klen_nonneg', 'lookup_eqdom', 'jeqk_implies_sub_ok', 'PIGEONHOLE',
+    lemmas=['plen_nonneg', 'klen_nonneg', 'lookup_eqdom', 'jeqk_implies_sub_ok', 'pigeonhole',
             'jeql_len', 'jeqk_len'],
 ))
 
